@@ -237,6 +237,14 @@ class ExprMixin(object):
                 return a.value == b.value and type(a.value) is type(b.value)
             if isinstance(a, EnumVal) and isinstance(b, EnumVal):
                 return a.cls is b.cls and a.name == b.name
+            if isinstance(a, Obj) and isinstance(b, Obj):
+                # instances of a str/int subclass: compared by their value
+                va, vb = a.fields.get('_value'), b.fields.get('_value')
+                if isinstance(va, Const) and isinstance(vb, Const) and \
+                        not self.find_member(a.cls, '__eq__') and \
+                        not self.find_member(b.cls, '__eq__'):
+                    return va.value == vb.value
+                return None
             if isinstance(a, ClsRef) and isinstance(b, ClsRef):
                 return a.cls is b.cls
             solid = (Obj, ClsRef, EnumVal, FuncRef, Bound, ListObj, DictObj, TupleT)
@@ -252,7 +260,7 @@ class ExprMixin(object):
         if op in ('==', 'is', '!=', 'is not'):
             i = ident(l, r)
             if i is not None and not (op in ('==', '!=') and
-                                      (isinstance(l, Obj) or isinstance(r, Obj))):
+                                      (isinstance(l, Obj) != isinstance(r, Obj))):
                 return Const(i if op in ('==', 'is') else not i)
             if isinstance(l, Const) and isinstance(r, Const):
                 return Const((l.value == r.value) == (op in ('==', 'is')))
